@@ -8,6 +8,7 @@ import (
 	"github.com/preslavrachev/gomjml/mjml/constants"
 	"github.com/preslavrachev/gomjml/mjml/html"
 	"github.com/preslavrachev/gomjml/mjml/options"
+	"github.com/preslavrachev/gomjml/mjml/styles"
 	"github.com/preslavrachev/gomjml/parser"
 )
 
@@ -64,6 +65,23 @@ func (c *MJGroupComponent) GetTagName() string {
 	return "mj-group"
 }
 
+// GetWidthClass returns the responsive class the group's div carries and the width its
+// media-query rule must declare. The head's class collection and Render both use it.
+func (c *MJGroupComponent) GetWidthClass() (string, styles.Size) {
+	groupWidth := c.getAttribute("width")
+	if strings.HasSuffix(groupWidth, "px") {
+		var widthPx int
+		fmt.Sscanf(groupWidth, "%dpx", &widthPx)
+		return fmt.Sprintf("mj-column-px-%d", widthPx), styles.NewPixelSize(float64(widthPx))
+	}
+	if strings.HasSuffix(groupWidth, "%") {
+		var percent float64
+		fmt.Sscanf(groupWidth, "%f%%", &percent)
+		return generateDecimalCSSClass(percent), styles.NewPercentSize(percent)
+	}
+	return "mj-column-per-100", styles.NewPercentSize(100)
+}
+
 // Render implements optimized Writer-based rendering for MJGroupComponent
 func (c *MJGroupComponent) Render(w io.StringWriter) error {
 	direction := c.getAttribute("direction")
@@ -86,20 +104,18 @@ func (c *MJGroupComponent) Render(w io.StringWriter) error {
 
 	containerWidth := c.GetEffectiveWidth()
 
+	widthClass, _ = c.GetWidthClass()
 	if strings.HasSuffix(groupWidth, "px") {
 		// Pixel width provided explicitly
 		fmt.Sscanf(groupWidth, "%dpx", &groupWidthPx)
-		widthClass = fmt.Sprintf("mj-column-px-%d", groupWidthPx)
 	} else if strings.HasSuffix(groupWidth, "%") {
 		// Percentage width – compute relative to container width
 		var percent float64
 		fmt.Sscanf(groupWidth, "%f%%", &percent)
 		groupWidthPx = int(float64(containerWidth) * percent / 100.0)
-		widthClass = generateDecimalCSSClass(percent)
 	} else {
 		// Fallback to 100% of container width
 		groupWidthPx = containerWidth
-		widthClass = "mj-column-per-100"
 	}
 
 	if columnCount > 0 {
